@@ -33,8 +33,8 @@ CHECKS['C18'] = {
         'legacy fan-out: cancellation of hanging remotes is measured (label) but not judged, it is asynchronous on a real connection',
     ],
     'units': [
-        unit('fed', 'federation_c18', '^TestVerifC18', {'shards': 8, 'checks': 1500}, {'shards': 16, 'checks': 40000, 'timeout': 1500}),
-        unit('legacy', 'controller_c18', '^TestVerifC18LegacyRewriteSignatures', {'shards': 4, 'checks': 1500}, {'shards': 8, 'checks': 60000, 'timeout': 1500}),
-        unit('legacyfan', 'controller_c18', '^TestVerifC18LegacyFanOut', {'shards': 4, 'checks': 300}, {'shards': 8, 'checks': 8000, 'timeout': 1500}),
+        unit('fed', 'federation_c18', '^TestVerifC18', {'shards': 8, 'checks': 1500}, {'shards': 16, 'checks': 25000, 'timeout': 1500}),
+        unit('legacy', 'controller_c18', '^TestVerifC18LegacyRewriteSignatures', {'shards': 4, 'checks': 1500}, {'shards': 8, 'checks': 40000, 'timeout': 1500}),
+        unit('legacyfan', 'controller_c18', '^TestVerifC18LegacyFanOut', {'shards': 4, 'checks': 300}, {'shards': 8, 'checks': 6000, 'timeout': 1500}),
     ],
 }
